@@ -109,6 +109,8 @@ func runC04(c c04Case) (*vh.Violation, vh.Outcome) {
 		return vh.V("C04/body-not-invertible", "fields recovered from the body differ from the value's fields"), o
 	}
 	m := c.V.value()
+	_ = m.SigningMsg() // prime any memoised digest: a later in-place change of the body must still be reflected
+	_ = m.SerializeBody()
 	changed := true
 	switch c.MutField {
 	case "ts":
